@@ -45,8 +45,13 @@ def decimal? (s : List Char) : Option Nat :=
   if s = [] ∨ ¬ s.all isDigit then none
   else some (s.foldl (fun n c => n * 10 + (c.toNat - '0'.toNat)) 0)
 
-/-- decimal text of a natural number -/
-def natStr (n : Nat) : List Char := (toString n).toList
+/-- decimal digits of a natural number, most significant first (`str(n)` for a non-negative int) -/
+def natDigitsAux : Nat → Nat → List Char → List Char
+  | 0, _, acc => acc
+  | fuel + 1, n, acc =>
+    let acc' := Char.ofNat ('0'.toNat + n % 10) :: acc
+    if n < 10 then acc' else natDigitsAux fuel (n / 10) acc'
+def natStr (n : Nat) : List Char := natDigitsAux (n + 1) n []
 
 /-! ### builders -/
 def rankCh (c : Card) : Char := (rankChar? c.rank).getD '?'
